@@ -1000,7 +1000,16 @@ func RPCDetachPools(ctx context.Context, t TransportClient, inputs []PoolDetachI
 // RPCLatestRevision returns the latest revision of a contract.
 func RPCLatestRevision(ctx context.Context, t TransportClient, contractID types.FileContractID) (resp rhp4.RPCLatestRevisionResponse, err error) {
 	req := rhp4.RPCLatestRevisionRequest{ContractID: contractID}
-	err = callSingleRoundtripRPC(ctx, t, rhp4.RPCLatestRevisionID, &req, &resp)
+	if err = callSingleRoundtripRPC(ctx, t, rhp4.RPCLatestRevisionID, &req, &resp); err != nil {
+		return
+	}
+	// a revision is only worth something if both parties signed it
+	sigHash := consensus.State{}.ContractSigHash(resp.Contract)
+	if !t.PeerKey().VerifyHash(sigHash, resp.Contract.HostSignature) {
+		return rhp4.RPCLatestRevisionResponse{}, clientErr("failed to validate host signature", rhp4.ErrInvalidSignature)
+	} else if !resp.Contract.RenterPublicKey.VerifyHash(sigHash, resp.Contract.RenterSignature) {
+		return rhp4.RPCLatestRevisionResponse{}, clientErr("failed to validate renter signature", rhp4.ErrInvalidSignature)
+	}
 	return
 }
 
